@@ -37,7 +37,7 @@ static void check(Chk& k, const Spec& s, const Case& c, Prec prec) {
   const VecL xc = toVL(X.coeffs());
   k.require("exp.finite", all_finite(X.coeffs()), "non-finite coefficient in exp(t)");
   if (!all_finite(X.coeffs())) return;
-  k.expect("exp.unit", (double)rot_norm_dev(s, xc), (double)manif::Constants<Scalar>::eps, "rotation part of exp(t) not unit within the acceptance threshold");
+  k.bound("exp.unit", (double)rot_norm_dev(s, xc), (double)manif::Constants<Scalar>::eps, "rotation part of exp(t) not unit within the acceptance threshold");
 
   const std::vector<LD> S = ref_lin_scale_t(s, t);
   const MatL want = ref_exp(s, t, prec);
@@ -55,9 +55,7 @@ vf::Outcome run_case(const vf::Case& c, const vf::RunCtx& ctx) {
   const Spec s = spec();
   Chk k(ctx);
   check(k, s, c, P_LD);
-  bool suspicious = k.o.st == Outcome::FAIL;
-  for (auto& m : k.o.margins) if (m.second > 0.01) suspicious = true;
-  if (suspicious) {
+  if (k.suspicious(0.1)) {
     Chk k2(ctx);
     check(k2, s, c, P_MP);
     k2.o.confirmed_mp = 1;
@@ -67,7 +65,9 @@ vf::Outcome run_case(const vf::Case& c, const vf::RunCtx& ctx) {
   const LD th = tan_theta_max(s, t), lin = tan_lin_max(s, t);
   k.label(std::string(theta_stratum((double)th, kIsFloat)));
   k.label(std::string(mag_decade((double)lin)));
-  k.o.nontrivial = (th != 0 || !s.has_rotation()) && lin >= 1e-3;
+  bool has_lin = false;
+  for (auto& e : s.e) if (e.dof() > e.nang() || e.k == K_RN) has_lin = true;
+  k.o.nontrivial = (th != 0 || !s.has_rotation()) && (lin >= 1e-3 || !has_lin);
   return k.o;
 }
 
